@@ -8,6 +8,7 @@ import (
 	"crypto/sha256"
 	"encoding/hex"
 	"encoding/json"
+	"flag"
 	"fmt"
 	"math/rand"
 	"os"
@@ -179,4 +180,28 @@ func Recover(f func() string) (res string) {
 		}
 	}()
 	return f()
+}
+
+// Main is the entry point shared by every per-property driver binary (harness/cmd/cNN):
+//
+//	cNN -seed N -tier quick|thorough [-search] -out DIR
+func Main(prop string, run func(o *Out)) {
+	seed := flag.Int64("seed", 1, "PRNG seed (VERIF_SEED)")
+	tier := flag.String("tier", "quick", "quick|thorough")
+	out := flag.String("out", "", "output directory")
+	search := flag.Bool("search", false, "an obligation broke: bias generators towards finding a failing input")
+	flag.Parse()
+	if *out == "" {
+		fmt.Fprintf(os.Stderr, "usage: %s -seed N -tier quick|thorough [-search] -out DIR\n", prop)
+		os.Exit(2)
+	}
+	o, err := New(*out, *seed, *tier)
+	if err != nil {
+		panic(err)
+	}
+	o.Search = *search
+	run(o)
+	if err := o.Close(); err != nil {
+		panic(err)
+	}
 }
